@@ -45,6 +45,12 @@ CLAIMED.update({
                 note="Trusted: z3, the invariant formula in vx/checks/c01.py, the SymRef heap model (vx/symheap.py). Bounds: 3 ops (2/1/0 operand slots, one successor slot, one owned region), 2 blocks, 2 regions quick; 4 ops/3 blocks thorough. Outside: state left by calls that raise, nested erasure, Operation.drop_all_references alone, PatternRewriter wrappers."),
 })
 
+CLAIMED.update({
+    "C03": dict(cat="other", design="DESIGN.md §4 C03",
+                text="Unit-symbolic on IR pairs (M1): A is a concrete skeleton, B the same skeleton with every comparable point symbolic (result/argument type widths 1..64, attribute/property payloads, every operand slot and successor slot as a symbolic reference over B's values/blocks); the real is_structurally_equivalent runs on (A,B) and z3 decides 'equivalent <=> all points coincide positionally', symmetry, reflexivity (attached ops, forward references, graph regions), equivalence with clones, non-equivalence under single structural changes, and OperationInfo.__eq__ agreement.",
+                note="Trusted: z3, SymRef model, the positional-correspondence oracle. Skeletons: flat, nested region, 2-block CFG, forward reference, graph region, single op with region; <=3 ops, 2 blocks."),
+})
+
 NOT_APPLICABLE = {
     "C05": "custom assembly formats: the quantifier is over ~80 dialects' op definitions/format programs; no data dimension for a solver beyond what C04/C06 cover for leaves (DESIGN §5)",
     "C17": "pass x corpus-module cross product: deciding it means running each pair concretely; no symbolic dimension (DESIGN §5)",
